@@ -79,6 +79,9 @@ DONE["C15"] = (DONE["C15"][0], DONE["C15"][1], DONE["C15"][2] + "; plus the id-r
 DONE["C10"] = (DONE["C10"][0], DONE["C10"][1], DONE["C10"][2] + "; plus the id-reuse cycles of C06's raw-peer driver (peer resets a flow and opens the id again while the old stream is still held)", DONE["C10"][3], DONE["C10"][4])
 DONE["C03"] = (DONE["C03"][0], DONE["C03"][1], DONE["C03"][2] + "; plus loom models of credit conservation under racing grants (m1,m3,m4,m8); plus the id-reuse cycles of C06's raw-peer driver (an old stream must not acknowledge on its re-opened id)", DONE["C03"][3], DONE["C03"][4])
 
+DONE["C02"] = (DONE["C02"][0], DONE["C02"][1], DONE["C02"][2] + "; plus part C02T: the stream ledger judged after every step with both endpoints over REAL tokio-tungstenite on byte pipes of capacity unbounded / 64 / 7 bytes (frames delivered in pieces), writes up to 17 000 000 bytes", DONE["C02"][3], DONE["C02"][4])
+DONE["C10"] = (DONE["C10"][0], DONE["C10"][1], DONE["C10"][2] + "; plus part C10T: a WebSocket-level misbehaving peer (Text, short Binary, control frames, fragmentation, reserved bits / opcodes, wrong masking) against one real endpoint over real tungstenite in both roles", DONE["C10"][3], DONE["C10"][4])
+
 
 DONE.update({
  "C19": ("enum+e2e", "exploration", "back-off generator: exhaustive operation sequences + long-outage patterns against the closed form; client loop: complete matrix of scripted server behaviours per connection attempt on loopback (one real-time execution per point, deadline hits re-run in isolation)",
